@@ -48,6 +48,7 @@ mutual
       simp only [Val.typeOf, Ty.all, Bool.and_eq_true] at ha
       simp [ticketSum, all_free bad hb v hc ha.2.2 k]
     | .set _ _, _, _, _ => by simp [ticketSum]
+    | .lam _ _ _, _, _, _ => by simp [ticketSum]
   theorem all_free_list (bad : List String) (hb : bad.contains "ticket" = true) :
       ∀ (t : Ty) (xs : List Val), Val.consistentList t xs = true → t.all bad = true → ∀ k, ticketSumList k xs = 0
     | _, [], _, _, _ => rfl
@@ -91,6 +92,7 @@ theorem toCmp_ty : ∀ (v : Val) (c : Cmp), v.toCmp = some c → v.typeOf = c.ty
   | .left .., _, h => by simp [Val.toCmp] at h
   | .right .., _, h => by simp [Val.toCmp] at h
   | .set .., _, h => by simp [Val.toCmp] at h
+  | .lam .., _, h => by simp [Val.toCmp] at h
 
 /-! ### maps -/
 
